@@ -1071,7 +1071,7 @@ class C19(Check):
         budget = 24 if tier == "quick" else 300
         jobs = [(c, b, budget) for c, b in cfgs]
         order = sorted(range(len(jobs)), key=lambda i: -jobs[i][1])
-        with multiprocessing.get_context("fork").Pool(min(14, common.NPROC)) as pool:
+        with multiprocessing.get_context("fork").Pool(min(14, common.NPROC), initializer=common.die_with_parent) as pool:
             for i, res in zip(order, pool.imap(explore_config, [jobs[i] for i in order], chunksize=1)):
                 case, bound, _ = jobs[i]
                 for schedule, verdict in res:
